@@ -147,6 +147,9 @@ func (g *guardEngine) same(a, b ssa.Value) bool {
 
 // lenOfValue: if v is len(x) returns x.
 func lenArg(v ssa.Value) ssa.Value {
+	if cv, ok := v.(*ssa.Convert); ok {
+		return lenArg(cv.X)
+	}
 	call, ok := v.(*ssa.Call)
 	if !ok {
 		return nil
@@ -261,8 +264,76 @@ func (g *guardEngine) minLenByConstruction(x ssa.Value, depth int) int64 {
 		return g.minLenByConstruction(v.X, depth+1)
 	case *ssa.ChangeType:
 		return g.minLenByConstruction(v.X, depth+1)
+	case *ssa.Parameter:
+		return g.paramMinLen(v, depth)
+	}
+	// field of a struct allocated in this function, assigned exactly once
+	if ld, ok := x.(*ssa.UnOp); ok && ld.Op == token.MUL {
+		if fa, ok := ld.X.(*ssa.FieldAddr); ok {
+			if al, ok := fa.X.(*ssa.Alloc); ok {
+				var vals []ssa.Value
+				for _, r := range *al.Referrers() {
+					if fa2, ok := r.(*ssa.FieldAddr); ok && fa2.Field == fa.Field {
+						for _, r2 := range *fa2.Referrers() {
+							if st, ok := r2.(*ssa.Store); ok && st.Addr == fa2 {
+								vals = append(vals, st.Val)
+							}
+						}
+					}
+				}
+				if len(vals) == 1 {
+					return g.minLenByConstruction(vals[0], depth+1)
+				}
+			}
+		}
 	}
 	return 0
+}
+
+// paramMinLen: the smallest length any static caller passes for this parameter (0 when
+// the function is used as a value or has no static caller).
+func (g *guardEngine) paramMinLen(par *ssa.Parameter, depth int) int64 {
+	f := par.Parent()
+	idx := -1
+	for i, q := range f.Params {
+		if q == par {
+			idx = i
+		}
+	}
+	if idx < 0 || depth > 3 {
+		return 0
+	}
+	min := int64(-1)
+	for h := range g.p.AllFns {
+		if !fnInModule(h) || h.Blocks == nil {
+			continue
+		}
+		for _, b := range h.Blocks {
+			for _, ins := range b.Instrs {
+				var ops []*ssa.Value
+				for _, op := range ins.Operands(ops) {
+					if op == nil || *op != ssa.Value(f) {
+						continue
+					}
+					call, ok := ins.(ssa.CallInstruction)
+					if !ok || call.Common().StaticCallee() != f {
+						return 0 // used as a value
+					}
+					if idx >= len(call.Common().Args) {
+						return 0
+					}
+					m := g.minLenByConstruction(call.Common().Args[idx], depth+1)
+					if min < 0 || m < min {
+						min = m
+					}
+				}
+			}
+		}
+	}
+	if min < 0 {
+		return 0
+	}
+	return min
 }
 
 type lenFact struct {
@@ -346,6 +417,9 @@ func (g *guardEngine) factsFromCond(cond ssa.Value, pol bool) []lenFact {
 			}
 			switch op {
 			case token.GTR:
+				if rangeIndex(r) {
+					return []lenFact{{x: x, gtIdx: r, min: 1}}
+				}
 				return []lenFact{{x: x, gtIdx: r}}
 			case token.GEQ:
 				return []lenFact{{x: x, geIdx: r}}
@@ -585,8 +659,25 @@ func (g *guardEngine) discharge(s guardSite) string {
 		if f.x == nil || !g.same(f.x, x) {
 			continue
 		}
-		if f.gtIdx != nil && (f.gtIdx == s.idx || g.same(f.gtIdx, s.idx)) {
+		if f.gtIdx != nil && (f.gtIdx == s.idx || g.same(f.gtIdx, s.idx) || sameModConvert(f.gtIdx, s.idx)) {
 			return "dominating guard idx < len"
+		}
+		if f.geIdx != nil && !s.idxIsBound {
+			// idx <= len is not enough for an index
+		}
+		if s.idxIsBound && f.gtIdx != nil {
+			// bound = idx+1 with idx < len
+			if add, ok := s.idx.(*ssa.BinOp); ok && add.Op == token.ADD {
+				if k, ok := constInt(add.Y); ok && k == 1 && (add.X == f.gtIdx || g.same(add.X, f.gtIdx)) {
+					return "slice bound idx+1 under dominating guard idx < len"
+				}
+			}
+			if f.gtIdx == s.idx || g.same(f.gtIdx, s.idx) {
+				return "slice bound under dominating guard bound < len"
+			}
+		}
+		if s.idxIsBound && f.geIdx != nil && sameModConvert(f.geIdx, s.idx) {
+			return "dominating guard bound <= len"
 		}
 		if s.idxIsBound && f.geIdx != nil && (f.geIdx == s.idx || g.same(f.geIdx, s.idx)) {
 			return "dominating guard bound <= len"
@@ -608,6 +699,24 @@ func (g *guardEngine) discharge(s guardSite) string {
 		}
 	}
 	return ""
+}
+
+func sameModConvert(a, b ssa.Value) bool {
+	for {
+		if c, ok := a.(*ssa.Convert); ok {
+			a = c.X
+			continue
+		}
+		break
+	}
+	for {
+		if c, ok := b.(*ssa.Convert); ok {
+			b = c.X
+			continue
+		}
+		break
+	}
+	return a == b
 }
 
 func (g *guardEngine) sameThroughSlice(a, b ssa.Value) bool {
